@@ -1,5 +1,6 @@
 /- The fact values the C08 theorems are proved for (and the oracle runs the model with). -/
 import EinoV.Model.C08Net
+import EinoV.Model.C08Late
 namespace EinoV.Expected.C08
 open EinoV.C08
 
@@ -11,5 +12,9 @@ def copyFacts : CopyFacts := { fillOnce := true, closeIncr := true, closeAtLen :
 /-- end-of-stream tests on the receive paths compare with the sentinel by identity -/
 def eofByIdentity : Bool := true
 def facts : Facts := { copy := copyFacts, tbl := receiveN, maxSel := maxSelectNum, fwdCloses := true }
+/-- `MergeStreamReaders`: (reader type, how its items are taken), see tools/factgen/c08_late.go -/
+def mergeTakes : List (Nat × Nat) := [(0, 0), (1, 1), (2, 2), (3, 3), (4, 4)]
+/-- a copy is merged through its own receive path, an array reader from its index -/
+def lateFacts : LateFacts := { childViaRecv := true, arrayFromIndex := true }
 
 end EinoV.Expected.C08
